@@ -171,4 +171,16 @@ example : ∃ s', parse (serverOptions (fun a => a == .PreserveSpecials || a == 
 example : serverOptions (fun a => a == .Recurse || a == .PreserveMTimes || a == .DeleteMode || a == .Sender)
     = ["--server".toList, "-tr".toList, "--delete".toList] := by decide
 
+/-- the item of `ServerOptions` that forwards `-d` -/
+def isDirsItem (it : Gen.OptTable.Item) : Bool :=
+  match it.tok, it.cond with
+  | .letter 'd', .and (.atom (.other s)) (.not (.atom (.acc .Recurse))) => s == "o.XferDirs() >= 2"
+  | _, _ => false
+
+/-- **Regenerated fact (D36)**: `-d` (`--dirs`) is forwarded. `ServerOptions` has an item for the letter `d`, guarded by the
+option's own field and by "not -r" (with -r the remote side transfers directories anyway). `forward_roundtrip` above
+does not speak about `xfer_dirs` — its value is post-processed from three options — so this item is pinned separately;
+before the repair there was no such item and a pull with `-d` listed nothing where a local copy created the directory. -/
+theorem dirs_option_forwarded : Gen.OptTable.serverItems.any isDirsItem = true := by decide
+
 end C14
